@@ -251,7 +251,16 @@ impl C07 {
     }
 
     fn eco(&self, cx: &mut Cx) {
-        let st = EcoState::gen(&mut cx.rng);
+        let mut st = EcoState::gen(&mut cx.rng);
+        // a busy server: replies of 6-40 kB (more than any default buffer size), Content-Length or chunked
+        let big = cx.rng.chance(1, 5);
+        if big {
+            let n = cx.rng.usize(250, 1500);
+            for _ in 0 .. n {
+                let name = cx.rng.text(16, &['\u{0}']);
+                st.r.players.push(gamedig::games::eco::Player { name });
+            }
+        }
         let drop = cx.rng.chance(1, 6).then(|| cx.rng.usize(0, 36));
         let body = st.body(&mut cx.rng, drop);
         let chunked = cx.rng.bool();
@@ -267,7 +276,7 @@ impl C07 {
         let lo = IpAddr::V4(Ipv4Addr::LOCALHOST);
         let (out, _a) = guarded(|| eco::query_with_timeout(&lo, Some(port), &ts));
         let req = h.join().unwrap_or_default();
-        cx.shape(&format!("eco|chunked={chunked}|dropped={}", drop.is_some()));
+        cx.shape(&format!("eco|chunked={chunked}|dropped={}|body>5kB={}", drop.is_some(), body.len() > 5012));
         if !req.starts_with("GET /frontpage HTTP/1.1\r\n") {
             cx.violation("C07 eco unexpected-request", || json!({"request": req}));
             return;
@@ -302,8 +311,16 @@ const GAMES: [&str; 7] = ["ffow", "savage2", "jc2m", "mindustry", "theship", "ba
 
 impl Check for C07 {
     fn id(&self) -> &'static str { "C07" }
+    fn memcheck_plan(&self, tier: Tier) -> Option<(crate::core::framework::MemMode, Vec<(u64, u64)>)> {
+        if tier != Tier::Thorough {
+            return None;
+        }
+        let total = self.total_cases(tier);
+        let n = 300u64.min(total / 16);
+        Some((crate::core::framework::MemMode::Harness, (0 .. 16).map(|i| (i * (total / 16), n)).collect()))
+    }
     fn rule(&self) -> String {
-        "random well-formed replies of the seven formats (FFOW with/without challenge, Savage 2, JC2-MP with 0-100 players, Mindustry with/without trailing mode name, The Ship, Battalion 1944 with every subset of its six rule overrides, Eco /frontpage JSON over a real loopback HTTP server, Content-Length and chunked) must come back field for field; an Eco reply lacking a member must be an error, not a fabricated value. non-trivial = Ok and equal (or the missing member rejected); distinct by reply bytes".into()
+        "random well-formed replies of the seven formats (FFOW with/without challenge, Savage 2, JC2-MP with 0-100 players, Mindustry with/without trailing mode name, The Ship, Battalion 1944 with every subset of its six rule overrides, Eco /frontpage JSON over a real loopback HTTP server, Content-Length and chunked, bodies up to ~40 kB) must come back field for field; an Eco reply lacking a member must be an error, not a fabricated value. non-trivial = Ok and equal (or the missing member rejected); distinct by reply bytes".into()
     }
     fn assumptions(&self) -> Vec<String> {
         vec![
